@@ -398,6 +398,10 @@ type rawItem struct {
 	ref  pdf.Reference
 	kind string
 	raw  []byte
+	// for kind "r:...": the read schedules (sizes minus one) of the source and of the consumer
+	early bool
+	ss    []int
+	cs    []int
 }
 
 func collectStrings(obj pdf.Object, out *[][]byte) {
@@ -433,14 +437,14 @@ func rawItems(doc *document, r *pdf.Reader) ([]rawItem, error) {
 		var ss [][]byte
 		collectStrings(obj, &ss)
 		for _, s := range ss {
-			items = append(items, rawItem{ref, "s", s})
+			items = append(items, rawItem{ref: ref, kind: "s", raw: s})
 		}
 		if stm, ok := obj.(*pdf.Stream); ok {
 			raw, err := io.ReadAll(stm.NewReader())
 			if err != nil {
 				return nil, err
 			}
-			items = append(items, rawItem{ref, "t", raw})
+			items = append(items, rawItem{ref: ref, kind: "t", raw: raw})
 		}
 	}
 	return items, nil
@@ -616,7 +620,7 @@ func straddleConfigs(e *common.Env) []config {
 					if strings.HasSuffix(pr[0], "-before") && !seenB {
 						pr[0] = "!" + pr[0]
 						seenB = true
-					} else if strings.HasSuffix(pr[0], "-after") && !seenA {
+					} else if strings.HasSuffix(pr[0], "-after") && !seenA && e.Thorough {
 						pr[0] = "!" + pr[0]
 						seenA = true
 					}
@@ -636,6 +640,7 @@ type run struct {
 	e       *common.Env
 	id      int
 	emdTamper int
+	r6parse   int
 	r6model int // R6 (file, password) pairs still to be sent to the model (rationed: the extracted SHA-2/AES are slow)
 	outside map[string]int
 }
@@ -778,8 +783,11 @@ func (rn *run) checkDocument(cfg config) {
 		}
 
 		// the model on the same /Encrypt dictionary (quick tier: the main labels and a sample of the near misses)
-		if !e.Thorough && R <= 4 && !(label == "user" || label == "owner" || label == "none" || label == "wrong") && e.Rand.IntN(3) != 0 {
-			continue
+		if !e.Thorough && R <= 4 {
+			main := label == "user" || label == "owner" || label == "wrong"
+			if (!main && e.Rand.IntN(5) != 0) || (label == "owner" && itemsDone && e.Rand.IntN(2) == 0) {
+				continue
+			}
 		}
 		if R >= 5 && !strings.HasPrefix(label, "!") {
 			if rn.r6model <= 0 {
@@ -798,6 +806,48 @@ func (rn *run) checkDocument(cfg config) {
 			}
 			useItems = items
 			itemsDone = true
+		}
+		// every stream also read through DecryptStream with random source/consumer chunkings, intact and damaged
+		if len(useItems) > 0 {
+			var extra []rawItem
+			for _, it := range useItems {
+				if it.kind != "t" {
+					continue
+				}
+				for v := 0; v < 2; v++ {
+					if !e.Thorough && v != e.Rand.IntN(2) {
+						continue
+					}
+					raw := it.raw
+					if v == 1 {
+						switch e.Rand.IntN(4) {
+						case 0:
+							raw = raw[:len(raw)*e.Rand.IntN(100)/100] // cut anywhere
+						case 1:
+							if len(raw) > 16 {
+								raw = raw[:len(raw)-16] // lose the last block
+							}
+						case 2:
+							raw = append(append([]byte{}, raw...), randBytes(e, 1+e.Rand.IntN(20))...)
+						default:
+							if len(raw) > 0 {
+								raw = append([]byte{}, raw...)
+								raw[len(raw)-1-e.Rand.IntN(min(len(raw), 16))] ^= byte(1 + e.Rand.IntN(255))
+							}
+						}
+					}
+					x := rawItem{ref: it.ref, raw: raw, early: e.Rand.IntN(2) == 0}
+					for i, n := 0, e.Rand.IntN(12); i < n; i++ {
+						x.ss = append(x.ss, []int{0, 0, 1, 14, 15, 16, 30, 31, 32, e.Rand.IntN(60)}[e.Rand.IntN(10)])
+					}
+					for i, n := 0, e.Rand.IntN(12); i < n; i++ {
+						x.cs = append(x.cs, []int{0, 0, 1, 14, 15, 16, 17, 31, 32, e.Rand.IntN(60)}[e.Rand.IntN(10)])
+					}
+					x.kind = fmt.Sprintf("r:%d:%s:%s", boolInt(x.early), intList(x.ss), intList(x.cs))
+					extra = append(extra, x)
+				}
+			}
+			useItems = append(append([]rawItem{}, useItems...), extra...)
 		}
 		line += fmt.Sprintf(" %d", len(useItems))
 		for _, it := range useItems {
@@ -819,6 +869,12 @@ func (rn *run) checkDocument(cfg config) {
 			var derr error
 			if it.kind == "s" {
 				dec, derr = pdf.VerifDecryptBytes(r, it.ref, it.raw)
+			} else if strings.HasPrefix(it.kind, "r:") {
+				var rd io.Reader
+				rd, derr = pdf.VerifDecryptStream(r, it.ref, &schedReader{data: it.raw, sizes: it.ss, early: it.early})
+				if derr == nil {
+					dec, derr = readSched(rd, it.cs)
+				}
 			} else {
 				var rd io.Reader
 				rd, derr = pdf.VerifDecryptStream(r, it.ref, &chunkReader{e: e, data: it.raw})
@@ -835,6 +891,9 @@ func (rn *run) checkDocument(cfg config) {
 	}
 	if cfg.human {
 		rn.tamper(doc)
+	}
+	if e.Thorough || R >= 5 || rn.id%3 == 0 {
+		rn.parseCases(doc)
 	}
 }
 
@@ -952,6 +1011,271 @@ func hexLower(b []byte) string {
 		out[2*i+1] = digits[c&15]
 	}
 	return string(out)
+}
+
+func intList(l []int) string {
+	if len(l) == 0 {
+		return "-"
+	}
+	p := make([]string, len(l))
+	for i, x := range l {
+		p[i] = fmt.Sprint(x)
+	}
+	return strings.Join(p, ",")
+}
+
+// schedReader hands out its data in pieces of sizes[i]+1 bytes (as much as fits afterwards) and reports
+// io.EOF together with the last piece (early) or on the following call.
+type schedReader struct {
+	data  []byte
+	sizes []int
+	early bool
+}
+
+func (c *schedReader) Read(p []byte) (int, error) {
+	if len(c.data) == 0 {
+		return 0, io.EOF
+	}
+	k := len(p)
+	if len(c.sizes) > 0 {
+		k = min(c.sizes[0]+1, len(p))
+		c.sizes = c.sizes[1:]
+	}
+	k = min(k, len(c.data))
+	copy(p, c.data[:k])
+	c.data = c.data[k:]
+	if len(c.data) == 0 && c.early {
+		return k, io.EOF
+	}
+	return k, nil
+}
+
+// readSched reads to EOF with buffers of cs[i]+1 bytes, then of 512 bytes.
+func readSched(rd io.Reader, cs []int) ([]byte, error) {
+	var out []byte
+	for {
+		n := 512
+		if len(cs) > 0 {
+			n = cs[0] + 1
+			cs = cs[1:]
+		}
+		buf := make([]byte, n)
+		k, err := rd.Read(buf)
+		out = append(out, buf[:k]...)
+		if err == io.EOF {
+			return out, nil
+		}
+		if err != nil {
+			return nil, err
+		}
+	}
+}
+
+// ---- parseEncryptDict: the Writer's dictionary and damaged variants of it ----------------------------
+
+func nameTok(n pdf.Name) string {
+	if n == "" {
+		return "_"
+	}
+	return string(n)
+}
+
+// encodeDict writes an /Encrypt dictionary in the abstract form of the model (ParseModel.v)
+func encodeDict(d pdf.Dict) string {
+	keys := make([]string, 0, len(d))
+	for k := range d {
+		keys = append(keys, string(k))
+	}
+	sort.Strings(keys)
+	var parts []string
+	n := 0
+	for _, k := range keys {
+		var ty, v string
+		switch x := d[pdf.Name(k)].(type) {
+		case pdf.Integer:
+			ty, v = "i", fmt.Sprint(int64(x))
+		case pdf.Name:
+			if x == "" && (k == "StmF" || k == "StrF") {
+				continue // an empty name selects nothing, exactly like a missing entry
+			}
+			ty, v = "n", nameTok(x)
+		case pdf.String:
+			ty, v = "s", common.Hex([]byte(x))
+		case pdf.Boolean:
+			ty, v = "b", fmt.Sprint(boolInt(bool(x)))
+		case pdf.Dict:
+			if k != "CF" {
+				// a dictionary where none is expected: any other wrong type will do for the model
+				ty, v = "b", "1"
+				if k == "EncryptMetadata" {
+					ty, v = "i", "0"
+				}
+				break
+			}
+			ty = "c"
+			std, ok := x["StdCF"].(pdf.Dict)
+			if !ok {
+				v = "nostd"
+			} else if cfm, ok := std["CFM"].(pdf.Name); ok {
+				v = nameTok(cfm)
+			} else {
+				v = "nocfm"
+			}
+		default:
+			continue
+		}
+		parts = append(parts, k, ty, v)
+		n++
+	}
+	return fmt.Sprintf("%d %s", n, strings.Join(parts, " "))
+}
+
+func cloneDict(d pdf.Dict) pdf.Dict {
+	c := pdf.Dict{}
+	for k, v := range d {
+		if sub, ok := v.(pdf.Dict); ok {
+			v = cloneDict(sub)
+		}
+		c[k] = v
+	}
+	return c
+}
+
+// mutateDict applies one random damage to an /Encrypt dictionary
+func mutateDict(e *common.Env, d pdf.Dict) (pdf.Dict, string) {
+	d = cloneDict(d)
+	keys := []pdf.Name{"Filter", "V", "R", "O", "U", "P", "Length", "CF", "StmF", "StrF", "EncryptMetadata", "OE", "UE", "Perms"}
+	k := keys[e.Rand.IntN(len(keys))]
+	wrong := []pdf.Object{pdf.Integer(3), pdf.Name("Foo"), pdf.String("xy"), pdf.Boolean(true), pdf.Dict{}}
+	switch op := e.Rand.IntN(10); {
+	case op == 0:
+		delete(d, k)
+		return d, "drop " + string(k)
+	case op == 1:
+		d[k] = wrong[e.Rand.IntN(len(wrong))]
+		return d, "retype " + string(k)
+	case op == 2:
+		d["V"] = pdf.Integer(e.Rand.IntN(7))
+		return d, "V"
+	case op == 3:
+		d["R"] = pdf.Integer(1 + e.Rand.IntN(7))
+		return d, "R"
+	case op == 4:
+		d["Length"] = pdf.Integer([]int{0, 32, 39, 40, 44, 48, 64, 104, 128, 136, 256}[e.Rand.IntN(11)])
+		return d, "Length"
+	case op == 5:
+		names := []pdf.Name{"StdCF", "Identity", "Other", ""}
+		d[[]pdf.Name{"StmF", "StrF"}[e.Rand.IntN(2)]] = names[e.Rand.IntN(len(names))]
+		return d, "StmF/StrF"
+	case op == 6:
+		cfm := []pdf.Object{pdf.Name("V2"), pdf.Name("AESV2"), pdf.Name("AESV3"), pdf.Name("None"), pdf.Integer(1), nil}[e.Rand.IntN(6)]
+		switch e.Rand.IntN(4) {
+		case 0:
+			d["CF"] = pdf.Dict{}
+		case 1:
+			d["CF"] = pdf.Dict{"StdCF": pdf.Integer(1)}
+		default:
+			std := pdf.Dict{"Length": pdf.Integer(128)}
+			if cfm != nil {
+				std["CFM"] = cfm
+			}
+			d["CF"] = pdf.Dict{"StdCF": std}
+		}
+		if e.Rand.IntN(2) == 0 {
+			d["StmF"], d["StrF"] = pdf.Name("StdCF"), pdf.Name("StdCF")
+			if _, ok := d["V"]; ok && e.Rand.IntN(2) == 0 {
+				d["V"] = pdf.Integer(4)
+				d["R"] = pdf.Integer(4)
+			}
+		}
+		return d, "CF"
+	case op == 7:
+		f := []pdf.Name{"O", "U", "OE", "UE", "Perms"}[e.Rand.IntN(5)]
+		s, _ := d[f].(pdf.String)
+		b := append([]byte{}, s...)
+		switch e.Rand.IntN(4) {
+		case 0:
+			b = append(b, make([]byte, 1+e.Rand.IntN(20))...) // zero padding: tryCrop removes it
+		case 1:
+			b = append(b, 0, 0, byte(1+e.Rand.IntN(255)))
+		case 2:
+			if len(b) > 0 {
+				b = b[:len(b)-1]
+			}
+		default:
+			b = randBytes(e, []int{0, 16, 31, 32, 33, 47, 48, 49}[e.Rand.IntN(8)])
+		}
+		d[f] = pdf.String(b)
+		return d, "len " + string(f)
+	case op == 8:
+		d["EncryptMetadata"] = []pdf.Object{pdf.Boolean(true), pdf.Boolean(false), pdf.Integer(0)}[e.Rand.IntN(3)]
+		return d, "EncryptMetadata"
+	default:
+		P, _ := d["P"].(pdf.Integer)
+		d["P"] = []pdf.Integer{P + 1<<32, P & 0xFFFFFFFF, -1, 0, P ^ 4}[e.Rand.IntN(5)]
+		return d, "P"
+	}
+}
+
+func (rn *run) parseCases(doc *document) {
+	e := rn.e
+	n := e.Pick(6, 20)
+	if doc.R >= 5 {
+		// authentication on a revision 6 dictionary costs several runs of Algorithm 2.B in the model: only the
+		// Writer's own dictionary, and only for a few documents (the cheapest: an empty user password)
+		if rn.r6parse <= 0 || doc.cfg.user != "" {
+			return
+		}
+		rn.r6parse--
+		n = 0
+	}
+	for i := -1; i < n; i++ {
+		d, what := doc.encDict, "as written"
+		twoIDs := true
+		if i >= 0 {
+			d, what = mutateDict(e, doc.encDict)
+			if e.Rand.IntN(3) == 0 {
+				d, _ = mutateDict(e, d)
+				what += "+"
+			}
+			if e.Rand.IntN(25) == 0 {
+				twoIDs = false
+			}
+		}
+		pw := doc.cfg.user
+		if i >= 0 && e.Rand.IntN(4) == 0 {
+			pw = doc.cfg.owner
+		}
+		raw, ok := rawPrep(doc.R, pw)
+		if !ok {
+			continue
+		}
+		if !twoIDs {
+			continue // the model takes the ID as given; the one-ID case is covered by the field check below
+		}
+		desc, perm, err := pdf.VerifParseEncryptDict(d, doc.id0, twoIDs, pw)
+		id := rn.nextID("g")
+		e.Line("cases.txt", "%s G %d %s %s %s", id, boolInt(pw != ""), common.Hex(raw), common.Hex(doc.id0), encodeDict(d))
+		var ae *pdf.AuthenticationError
+		class := "ok"
+		switch {
+		case err == nil:
+			e.Line("impl.obs", "%s ok %s perm=%d", id, desc, int(perm))
+		case pdf.IsMalformed(err):
+			class = "malformed"
+			e.Line("impl.obs", "%s malformed", id)
+		case errors.As(err, &ae):
+			class = "auth"
+			e.Line("impl.obs", "%s auth", id)
+		default:
+			class = "err"
+			e.Line("impl.obs", "%s err", id)
+		}
+		if i < 0 && err != nil {
+			e.Fail("parse-own-dict", fmt.Sprintf("parseEncryptDict rejects the dictionary AsDict produced: %v", err), map[string]any{"config": doc.cfg.String()})
+		}
+		e.Count(true, fmt.Sprintf("parse|%s|%s|%s", doc.cfg.String(), what, encodeDict(d)), fmt.Sprintf("parse-encrypt/R%d/%s", doc.R, class))
+	}
 }
 
 // chunkReader delivers its data in random pieces (the decryptReader must not depend on them).
@@ -1103,7 +1427,7 @@ func (rn *run) perms() {
 
 func main() {
 	e := common.New(9)
-	rn := &run{e: e, r6model: e.Pick(5, 30), emdTamper: e.Pick(1, 6), outside: map[string]int{}}
+	rn := &run{e: e, r6model: e.Pick(4, 30), emdTamper: e.Pick(1, 6), r6parse: e.Pick(1, 4), outside: map[string]int{}}
 	rn.primitives()
 	rn.perms()
 
